@@ -73,6 +73,7 @@ def check(ctx):
         ctx.oblige("R-C04.1", f"{cb} fires exactly on {tok}", ok, sample={"rule": "R-C04.1", "callback": cb, "sites": [(m, c.lineno) for m, c in calls[cb]]})
         if not ok:
             ctx.violation("R-C04.1", f"brace-callback:{cb}", f"the lexer must call {cb} exactly once, under the test that the token just produced is {tok}; found {[(m, S.unparse(_nearest_if(c).test) if _nearest_if(c) else None) for m, c in calls[cb]]}", file=lx.rel, function="CLexer._match_token")
+    scope_stack_never_empty(ctx, "R-C04.1")
     parse = px.method("CParser", "parse")
     fresh = [n for n in parse.body if isinstance(n, ast.Assign) and any(isinstance(t, ast.Attribute) and t.attr == "_scope_stack" for t in n.targets)]
     ok = bool(fresh) and isinstance(fresh[0].value, ast.List) and len(fresh[0].value.elts) == 1
@@ -101,6 +102,22 @@ def check(ctx):
     ctx.oblige("R-C04.2", "_is_type_in_scope lookup rule", ok, sample={"rule": "R-C04.2", "verdict": why})
     if not ok:
         ctx.violation("R-C04.2", "lookup-rule", f"_is_type_in_scope must search the scopes innermost first, answer from the first scope that contains the name, and answer False otherwise ({why})", file=px.rel, function="CParser._is_type_in_scope")
+    # single source of truth: the lookup and the registration helpers consult / update the scope stack and nothing else
+    allowed = {"_is_type_in_scope": {"_scope_stack"}, "_lex_type_lookup_func": {"_is_type_in_scope"}, "_add_typedef_name": {"_scope_stack", "_parse_error"},
+               "_add_identifier": {"_scope_stack", "_parse_error"}, "_push_scope": {"_scope_stack"}, "_pop_scope": {"_scope_stack", "_parse_error", "clex"}}
+    for meth, okset in allowed.items():
+        f2 = px.method("CParser", meth)
+        used = {n.attr for n in ast.walk(f2) if isinstance(n, ast.Attribute) and isinstance(n.value, ast.Name) and n.value.id == "self"}
+        extra = sorted(used - okset)
+        ctx.oblige("R-C04.2", f"{meth} consults only the scope stack", not extra, sample={"rule": "R-C04.2", "method": meth, "instance attributes used": sorted(used)})
+        if extra:
+            ctx.violation("R-C04.2", f"second-source:{meth}:{','.join(extra)}", f"{meth} uses self.{', self.'.join(extra)} besides the scope stack: the answer to 'is this identifier a type name' then depends on state other than the scope tables "
+                          "(a memo or index that can disagree with them after a scope closes, a name is re-declared, or a new parse starts)", file=px.rel, function=f"CParser.{meth}")
+    nret = len([n for n in ast.walk(fn) if isinstance(n, ast.Return)])
+    ok = nret == 2
+    ctx.oblige("R-C04.2", "_is_type_in_scope has no exit besides the loop hit and the final False", ok)
+    if not ok:
+        ctx.violation("R-C04.2", "lookup-extra-exit", f"_is_type_in_scope has {nret} return statements (expected: the hit inside the loop and the final `return False`): an extra exit answers without consulting the scopes", file=px.rel, function="CParser._is_type_in_scope")
     tl = px.method("CParser", "_lex_type_lookup_func")
     ok = any(isinstance(n, ast.Call) and isinstance(n.func, ast.Attribute) and n.func.attr == "_is_type_in_scope" for n in ast.walk(tl)) and len([n for n in ast.walk(tl) if isinstance(n, ast.Return)]) == 1
     ctx.oblige("R-C04.2", "_lex_type_lookup_func = _is_type_in_scope", ok)
@@ -168,6 +185,53 @@ def check(ctx):
                                "wiring of every registration call site compared with the reviewed registration table")
     ctx.assumptions += ["NOT decided: the timing clause - names are registered when a declaration is reduced while look-ahead tokens may already have been classified by the lexer (run-time interleaving)"]
     ctx.trusted += ["sa/wiring_ref.json (registration table)"]
+
+
+def scope_stack_never_empty(ctx, rid):
+    """Mechanical backing of 'the scope stack is never empty': it shrinks only in _pop_scope, after a guard that raises while its length is <= 1."""
+    px = S.module("c_parser")
+    shrinkers = []
+    for mname, fn in px.methods("CParser").items():
+        for n in ast.walk(fn):
+            if isinstance(n, ast.Call) and isinstance(n.func, ast.Attribute) and n.func.attr in ("pop", "clear", "remove") and S.unparse(n.func.value) == "self._scope_stack":
+                shrinkers.append((mname, n))
+            if isinstance(n, ast.Delete) and any("self._scope_stack" in S.unparse(t) for t in n.targets):
+                shrinkers.append((mname, n))
+            if isinstance(n, (ast.Assign, ast.AugAssign)) and mname not in ("parse", "__init__"):
+                for t in (n.targets if isinstance(n, ast.Assign) else [n.target]):
+                    if S.unparse(t) == "self._scope_stack":
+                        shrinkers.append((mname, n))
+    ok_all = bool(shrinkers)
+    for mname, n in shrinkers:
+        st = n
+        while not isinstance(st, ast.stmt):
+            st = st._parent
+        blk = None
+        par = getattr(st, "_parent", None)
+        for field in ("body", "orelse"):
+            b = getattr(par, field, None)
+            if isinstance(b, list) and any(x is st for x in b):
+                blk = b
+        guarded = False
+        if mname == "_pop_scope" and blk is not None:
+            for sib in blk[:[i for i, x in enumerate(blk) if x is st][0]]:
+                if isinstance(sib, ast.If) and isinstance(sib.test, ast.Compare) and len(sib.test.ops) == 1 and S.unparse(sib.test.left) == "len(self._scope_stack)" \
+                        and isinstance(sib.test.comparators[0], ast.Constant) and isinstance(sib.test.comparators[0].value, int) \
+                        and any(isinstance(c, ast.Call) and isinstance(c.func, ast.Attribute) and c.func.attr == "_parse_error" for s2 in sib.body[-1:] for c in ast.walk(s2)):
+                    k = sib.test.comparators[0].value
+                    op = type(sib.test.ops[0])
+                    holds = {ast.LtE: lambda L: L <= k, ast.Lt: lambda L: L < k, ast.Eq: lambda L: L == k, ast.GtE: lambda L: L >= k, ast.Gt: lambda L: L > k, ast.NotEq: lambda L: L != k}.get(op)
+                    # the stack holds >= 1 scope by induction, so the guard has to fire exactly when one is left
+                    if holds is not None and holds(1) and not holds(2):
+                        guarded = True
+        ctx.oblige(rid, f"{mname}: `{S.unparse(n)[:50]}` cannot remove the file scope", guarded, sample={"rule": rid, "method": mname, "construct": S.unparse(n)[:60], "verdict": "guarded: raises ParseError while one scope is left" if guarded else "UNGUARDED"})
+        if not guarded:
+            ok_all = False
+            ctx.violation(rid, f"scope-underflow:{mname}", f"{mname}: `{S.unparse(n)[:60]}` can remove the last (file) scope - it is not preceded by a guard that raises ParseError while len(self._scope_stack) is 1: an unmatched '}}' then leaves an empty "
+                          "stack and the next declaration raises IndexError instead of ParseError", file=px.rel, function=f"CParser.{mname}", line=n.lineno)
+    if not shrinkers:
+        raise AnalysisError("no statement shrinks the scope stack: _pop_scope no longer pops (scope typestate not recognised)")
+    return ok_all
 
 
 def _nearest_if(node):
